@@ -20,6 +20,10 @@ import (
 	"github.com/prometheus/prometheus/model/labels"
 	"github.com/prometheus/prometheus/storage"
 
+	"github.com/prometheus/prometheus/tsdb"
+	"github.com/prometheus/prometheus/tsdb/index"
+
+	"github.com/thanos-io/thanos/pkg/receive/expandedpostingscache"
 	storecache "github.com/thanos-io/thanos/pkg/store/cache"
 	"github.com/thanos-io/thanos/pkg/store/storepb"
 
@@ -64,6 +68,12 @@ func (it item) json() map[string]any {
 			ms = append(ms, map[string]any{"name": m.Name, "type": m.Type, "value": m.Value})
 		}
 		return map[string]any{"kind": "EP", "blk": it.Blk, "comp": it.Comp, "ms": ms}
+	case "RP":
+		ms := make([]any, 0, len(it.Ms))
+		for _, m := range it.Ms {
+			ms = append(ms, map[string]any{"name": m.Name, "type": m.Type, "value": m.Value})
+		}
+		return map[string]any{"kind": "RP", "blk": it.Blk, "ms": ms}
 	case "S":
 		return map[string]any{"kind": "S", "blk": it.Blk, "id": strconv.FormatUint(it.ID, 10)}
 	case "MC":
@@ -73,7 +83,8 @@ func (it item) json() map[string]any {
 }
 
 var blockIDs = map[string]ulid.ULID{
-	"B1": ulid.MustNew(1, nil),
+	"HEAD": expandedpostingscache.VerifHeadULID(),
+	"B1":   ulid.MustNew(1, nil),
 	"B2": ulid.MustNew(1700000000000, strings.NewReader("0123456789abcdef")),
 }
 
@@ -100,6 +111,11 @@ func concretise(a map[string]any) item {
 	switch it.Kind {
 	case "P":
 		it.Name, it.Value, it.Comp = chars(a["name"]), chars(a["value"]), chars(a["comp"])
+	case "RP":
+		for _, m := range vt.List(a["ms"]) {
+			mm := vt.Map(m)
+			it.Ms = append(it.Ms, matcher{chars(mm["name"]), vt.Str(mm["type"]), chars(mm["value"])})
+		}
 	case "EP":
 		it.Comp = chars(a["comp"])
 		for _, m := range vt.List(a["ms"]) {
@@ -127,7 +143,7 @@ func (it item) valid() bool {
 	switch it.Kind {
 	case "P", "MC":
 		return okName(it.Name) && utf8.ValidString(it.Value)
-	case "EP":
+	case "EP", "RP":
 		for _, m := range it.Ms {
 			if !okName(m.Name) || !utf8.ValidString(m.Value) {
 				return false
@@ -183,6 +199,12 @@ func directKey(it item) string {
 		return storecache.CacheKey{Block: it.Blk, Key: storecache.CacheKeyExpandedPostings(storecache.LabelMatchersToString(promMatchers(it.Ms))), Compression: it.Comp}.String()
 	case "S":
 		return storecache.CacheKey{Block: it.Blk, Key: storecache.CacheKeySeries(it.ID)}.String()
+	case "RP":
+		seed := ""
+		if it.Blk == blockIDs["HEAD"].String() {
+			seed = "0"
+		}
+		return recvCache.VerifCacheKey(seed, ulid.MustParse(it.Blk), promMatchers(it.Ms)...)
 	case "MC":
 		k, err := storecache.VerifMatchersCacheKey(&storepb.LabelMatcher{Type: pbType(it.Type), Name: it.Name, Value: it.Value})
 		if err != nil {
@@ -361,11 +383,81 @@ func runConv(items []item) (rkeys []string, got []any) {
 	}
 }
 
+var recvCache = expandedpostingscache.NewBlocksPostingsForMatchersCache(expandedpostingscache.NewPostingCacheMetrics(prometheus.NewRegistry()), 1<<20, 1<<20, 16)
+
+// runRecv: the receiver's expanded-postings cache (pkg/receive/expandedpostingscache). Every item's
+// postings are produced once (a one-element list naming the item) through the real
+// PostingsForMatchers entry point, then every item is asked for again.
+func runRecv(items []item) (rkeys []string, got []any) {
+	n := len(items)
+	rkeys = make([]string, n)
+	c := expandedpostingscache.NewBlocksPostingsForMatchersCache(expandedpostingscache.NewPostingCacheMetrics(prometheus.NewRegistry()), 1<<30, 1<<30, 16)
+	cur := 0
+	const miss = 1 << 40
+	c.VerifSetPostingsForMatchersFunc(func(context.Context, tsdb.IndexReader, ...*labels.Matcher) (index.Postings, error) {
+		return index.NewListPostings([]storage.SeriesRef{storage.SeriesRef(cur)}), nil
+	})
+	ask := func(it item) int {
+		p, err := c.PostingsForMatchers(context.Background(), ulid.MustParse(it.Blk), nil, promMatchers(it.Ms)...)
+		if err != nil || !p.Next() {
+			return -1
+		}
+		if p.At() == miss {
+			return -1
+		}
+		return int(p.At())
+	}
+	for x, it := range items {
+		cur = x
+		ask(it)
+	}
+	cur = miss
+	out := make([]int, n)
+	for x, it := range items {
+		out[x] = ask(it)
+	}
+	return rkeys, []any{map[string]any{"backend": "receive-expanded-postings-cache", "owner": out}}
+}
+
+// convEndToEnd: MatchersToPromMatchersCached with the real conversion (regexes are compiled; a
+// value that is not a valid regex makes the conversion fail: recorded as a miss).
+func convEndToEnd(items []item) map[string]any {
+	type triple struct{ t, n, v string }
+	first := map[triple]int{}
+	for x, it := range items {
+		if _, ok := first[triple{it.Type, it.Name, it.Value}]; !ok {
+			first[triple{it.Type, it.Name, it.Value}] = x
+		}
+	}
+	typeName := map[labels.MatchType]string{labels.MatchEqual: "EQ", labels.MatchNotEqual: "NEQ", labels.MatchRegexp: "RE", labels.MatchNotRegexp: "NRE"}
+	c, err := storecache.NewMatchersCache(storecache.WithSize(len(items) + 16))
+	if err != nil {
+		panic(err)
+	}
+	out := make([]int, len(items))
+	for pass := 0; pass < 2; pass++ {
+		for x, it := range items {
+			ms, err := storecache.MatchersToPromMatchersCached(c, storepb.LabelMatcher{Type: pbType(it.Type), Name: it.Name, Value: it.Value})
+			if err != nil || len(ms) != 1 {
+				out[x] = -1
+				continue
+			}
+			o, ok := first[triple{typeName[ms[0].Type], ms[0].Name, ms[0].Value}]
+			if !ok {
+				panic("MatchersToPromMatchersCached returned a matcher nobody asked for: " + ms[0].String())
+			}
+			out[x] = o
+		}
+	}
+	return map[string]any{"backend": "MatchersToPromMatchersCached(default cache)", "owner": out}
+}
+
 func TestC13(t *testing.T) {
 	rnd := vt.Rand()
 	gen := func(yield func(vt.Case)) {
 		for _, c := range vt.TLCCases(t) {
 			c["src"] = "tlc"
+			c["model"] = true
 			yield(c)
 		}
 		n := vt.Pick(40, 400)
@@ -382,7 +474,7 @@ func TestC13(t *testing.T) {
 			if !it.valid() {
 				t.Fatalf("generated item outside the quantifier of C13 (invalid label name/value): %+v", it)
 			}
-			if (space == "conv") != (it.Kind == "MC") {
+			if (space == "conv") != (it.Kind == "MC") || (space == "recv") != (it.Kind == "RP") {
 				t.Fatalf("item kind %s in space %s", it.Kind, space)
 			}
 			items = append(items, it)
@@ -400,6 +492,9 @@ func TestC13(t *testing.T) {
 		var got []any
 		if space == "conv" {
 			rkeys, got = runConv(items)
+			got = append(got, convEndToEnd(items))
+		} else if space == "recv" {
+			rkeys, got = runRecv(items)
 		} else {
 			rkeys, got = runIndex(items)
 		}
@@ -479,7 +574,53 @@ func randomGroup(r *rand.Rand, i int) vt.Case {
 			tn := typeNames[r.Intn(4)]
 			add(map[string]any{"kind": "MC", "name": cs(flat[:k]), "type": tn, "value": cs(flat[k:])})
 		}
-		return vt.Case{"space": "conv", "src": "random", "items": items}
+		return vt.Case{"space": "conv", "src": "random", "model": true, "items": items}
+	}
+	if i%4 == 3 {
+		// receiver's expanded-postings cache: matcher lists, their permutations, lists that differ only in
+		// where the type symbol / the '|' between two matchers is read, persisted and head blocks
+		b := []string{"B1", "B2", "HEAD"}[r.Intn(3)]
+		addRP := func(ms ...any) {
+			if b == "HEAD" { // head postings are only cached for selectors with __name__="..."
+				ms = append(ms, map[string]any{"name": str("__name__"), "type": "EQ", "value": str("m")})
+			}
+			if ms == nil {
+				ms = []any{}
+			}
+			add(map[string]any{"kind": "RP", "blk": b, "ms": ms})
+		}
+		rm := func() map[string]any {
+			a := r.Intn(len(flat))
+			e := a + 1 + r.Intn(len(flat)-a)
+			name := flat[a:e]
+			if r.Intn(2) == 0 {
+				name = []string{[]string{"job", "a", "pod"}[r.Intn(3)]}
+			}
+			return map[string]any{"name": cs(name), "type": typeNames[r.Intn(4)], "value": cs(randRunes(r, r.Intn(4)))}
+		}
+		for k := 0; k < 10; k++ {
+			m1, m2 := rm(), rm()
+			addRP(m1, m2)
+			addRP(m2, m1)
+			addRP(m1)
+			addRP(m2)
+			n1, v1, n2, v2 := chars(m1["name"]), chars(m1["value"]), chars(m2["name"]), chars(m2["value"])
+			t1, t2 := vt.Str(m1["type"]), vt.Str(m2["type"])
+			// ONE matcher whose value spells "v1|name2 op2 v2" (plain and quoted renderings)
+			addRP(map[string]any{"name": m1["name"], "type": t1, "value": str(v1 + "|" + n2 + typeSyms[t2] + v2)})
+			addRP(map[string]any{"name": m1["name"], "type": t1, "value": str(v1 + "\"|" + n2 + typeSyms[t2] + "\"" + v2)})
+			// the type symbol read at another place: name op value  vs  name op' value'
+			for _, tn := range typeNames {
+				if strings.HasPrefix(typeSyms[t1]+v1, typeSyms[tn]) && tn != t1 {
+					addRP(map[string]any{"name": m1["name"], "type": tn, "value": str((typeSyms[t1] + v1)[len(typeSyms[tn]):])})
+				}
+			}
+			addRP(map[string]any{"name": str(n1 + "="), "type": "RE", "value": str(v1)})
+			addRP(map[string]any{"name": str(n1), "type": "EQ", "value": str("=~" + v1)})
+			addRP(map[string]any{"name": str(n1 + "=~" + v1 + "|" + n2), "type": t2, "value": str(v2)})
+		}
+		addRP()
+		return vt.Case{"space": "recv", "src": "random", "model": false, "items": items}
 	}
 	blk := func() string { return []string{"B1", "B2"}[r.Intn(2)] }
 	comp := func() []any {
@@ -546,5 +687,5 @@ func randomGroup(r *rand.Rand, i int) vt.Case {
 		id := []uint64{0, 1, 12, 121, 1 << 40, ^uint64(0)}[r.Intn(6)]
 		add(map[string]any{"kind": "S", "blk": blk(), "id": str(strconv.FormatUint(id, 10))})
 	}
-	return vt.Case{"space": "index", "src": "random", "items": items}
+	return vt.Case{"space": "index", "src": "random", "model": true, "items": items}
 }
